@@ -180,3 +180,7 @@ UNITS += [is_supported_typehint_unit("C02"), is_subclass_typehint_unit("C02"), i
 
 from contracts.share import carried as _carried  # noqa: E402
 UNITS += _carried("C02")
+
+# "restricted-type predicate": the validation functions of the restricted number / string types and the constructor that runs them (units of C20)
+from contracts.share import shared as _shared_c02  # noqa: E402
+UNITS += _shared_c02("C02", "contracts.c20", "restricted_number_type.<locals>.validation_fn", "restricted_string_type.<locals>.validation_fn", "TypeCore.__new__")
